@@ -109,6 +109,29 @@ PROPS["C18"] = {
     "assumptions": ["programs come from the harness IL generator (harness/src/ilgen.rs)"],
 }
 
+PROPS["C06"] = {
+    "quick_secs": 16,
+    "thorough_secs": 360,
+    "totality": True,
+    "min_evaluations": 20000,
+    "technique": "differential trace monitor: generated machine-code programs lifted with translate_function_extended and executed by the reference IL interpreter vs the same bytes executed one machine instruction at a time (each instruction lifted on its own at its pc); the two sequences of (instruction address, IL operation) and the way they end must be identical; structural monitor on every recovered function",
+    "rule": "programs of 2-120 instructions for all 7 translators (x86, amd64, mips, mipsel, ppc, aarch64, aarch64eb) built from the instructions each lifter accepts: "
+            "ALU/move/memory filler incl. 10-byte x86 instructions, forward and backward conditional and unconditional direct branches (x86 rel8/rel32, loop), branches to the "
+            "next instruction, MIPS delay slots (also as branch targets), returns, indirect jumps through a reserved register with manual edges (true target plus decoys, "
+            "conditional and unconditional), never-taken manual edges between arbitrary instructions, x86 branches into the middle of an instruction; code placed at every "
+            "alignment relative to the 64-byte translation window, straight-line runs longer than a window, function entry in the middle of the program; 3-4 initial states "
+            "per program. Structure per function: address and entry block, no edge naming a missing block, each statically reachable instruction present with exactly the IL "
+            "operations of its own lifting (neither missing nor duplicated). Non-trivial = an execution of >= 2 distinct instructions compared to its end; distinct = "
+            "(translator, end kind, loop, window-crossing, mid-block target, manual/indirect/overlap features).",
+    "level_text": "Sampled (program, initial state) pairs; the sequential oracle uses falcon's own single-instruction lifting (judged separately by C01-C03), so this check isolates block discovery, sharing, edges, windows and merging.",
+    "level_note": "a Branch operation hands control to its target (executor semantics); execution stays inside the function only through a requested manual edge; runs are cut at 1500 IL operations on both sides; trusts refinterp.rs/refeval.rs",
+    "assumptions": [
+        "the per-instruction lifting used by the oracle is the one judged by C01/C02/C03",
+        "a lift error on a program with x86 branches into the middle of instructions is not judged (the bytes decoded there are arbitrary)",
+        "the recovered function may contain code beyond what direct branches reach (e.g. after call-like instructions): counted, not judged",
+    ],
+}
+
 PROPS["C07"] = {
     "quick_secs": 12,
     "thorough_secs": 180,
